@@ -137,6 +137,11 @@ def main(argv=None):
     known = load_known()
     baseline = load_baseline()
     extra_checks = pm.extra(tier, seed) if hasattr(pm, 'extra') else []
+    try:
+        from fvverif.battery import np_extra_battery
+        bd, bn = np_extra_battery()
+    except Exception as e:      # noqa: BLE001
+        bd, bn = [('battery', 'crashed: %s' % e)], 0
 
     viol, undecided, faults, kf_lines = [], [], [], []
     bounded_runs = []
@@ -231,6 +236,8 @@ def main(argv=None):
             if any(r['oid'] == k.get('obligation') for r in res):
                 print('STALE-KNOWN-FINDING: property=%s %s no longer fails (%s)' % (prop, k['obligation'], k['key']))
 
+    if bd:
+        faults.append('numpy model battery (extra functions) disagrees with the installed numpy: %s' % bd[:3])
     for name, ok, detail in extra_checks:
         n_obl += 1
         if ok:
@@ -261,7 +268,7 @@ def main(argv=None):
                jobs=len(res), grids=sorted({r['grid'] for r in res}),
                functions_under_contract=sorted(functions | set(getattr(pm, 'FUNCTIONS', []))),
                backend_counts=backends, solver_seconds=round(solver_s, 2),
-               canaries_refuted=canaries, conformance_arrays_compared=conf_cases,
+               canaries_refuted=canaries, conformance_arrays_compared=conf_cases, numpy_model_battery_cases=bn,
                known_findings_reproduced=sorted(set(kf_reproduced)),
                undecided=len(undecided), samples=samples or [dict(note='no proved obligation in this run')],
                explanation=getattr(pm, 'EXPLANATION', ''),
